@@ -449,11 +449,13 @@ lemma core_ok (o : RObj) (tol : Rat) (flat out : Vec) (h : o.core tol flat = .ok
     Fits o.kind.rxns flat ∧ feasibility tol (o.kind.react flat) = .ok out := by
   unfold RObj.core at h
   split at h
-  · rename_i hall
-    refine ⟨?_, h⟩
-    intro rx hrx
-    have := (List.all_eq_true.mp hall) rx hrx
-    simpa using this
+  · split at h
+    · rename_i hall
+      refine ⟨?_, h⟩
+      intro rx hrx
+      have := (List.all_eq_true.mp hall) rx hrx
+      simpa using this
+    · cases h
   · cases h
 
 lemma length_core (o : RObj) (tol : Rat) (flat out : Vec) (h : o.core tol flat = .ok out) :
@@ -794,12 +796,14 @@ lemma coreForce_ok (o : RObj) (eps : Rat) (flat out : Vec) (h : o.coreForce eps 
     Fits o.kind.rxns flat ∧ out = removeNegligible eps (o.kind.react flat) := by
   unfold RObj.coreForce at h
   split at h
-  · rename_i hall
-    injection h with h
-    refine ⟨?_, h.symm⟩
-    intro rx hrx
-    have := (List.all_eq_true.mp hall) rx hrx
-    simpa using this
+  · split at h
+    · rename_i hall
+      injection h with h
+      refine ⟨?_, h.symm⟩
+      intro rx hrx
+      have := (List.all_eq_true.mp hall) rx hrx
+      simpa using this
+    · cases h
   · cases h
 
 /-- `force_reaction` conserves every balanced row up to the dropped negligible amounts:
@@ -1001,6 +1005,32 @@ example : Resolves [["H2O", "Water"], ["H2"], ["O2"]] := by
   rcases this with rfl | rfl | rfl <;> decide +kernel
 
 example : parseReaction [["H2O", "Water"], ["H2"], ["O2"]] "2 H2 + O2 -> 1.5 Water" = some (.ok [3/2, -2, -1]) := by
+  decide +kernel
+
+/-! ## a `ReactionSystem` re-checks its members' basis at every call -/
+
+/-- The system keeps references to its member reactions; when one of them has been switched to
+another basis since (`member.basis = 'wt'`), the call is refused (`RuntimeError`) instead of
+mixing molar and weight stoichiometries — for `__call__` and for `force_reaction`, arrays and streams. -/
+theorem mixed_basis_refused (o : RObj) (tol eps : Rat) (flat : Vec) (h : o.basesOk = false) :
+    o.core tol flat = .error .basisMix ∧ o.coreForce eps flat = .error .basisMix := by
+  unfold RObj.core RObj.coreForce
+  simp [h]
+
+/-- … so whenever a call returns, every member had the basis of the system (and all the
+conservation theorems above, which assume one basis for the whole object, apply). -/
+theorem return_implies_one_basis (o : RObj) (tol : Rat) (flat out : Vec) (h : o.core tol flat = .ok out) :
+    ∀ b ∈ o.memberBases, b = o.basis := by
+  unfold RObj.core at h
+  split at h
+  · rename_i hb
+    intro b hbm
+    have := (List.all_eq_true.mp hb) b hbm
+    simpa using this
+  · cases h
+
+/-- non-vacuity: a by-mol system one of whose two members is by wt now -/
+example : (RObj.mk (.system []) .mol [] [] [] [.mol, .wt]).core feasTol [] = .error .basisMix := by
   decide +kernel
 
 end ThermoVerif.Props.C05
